@@ -14,6 +14,7 @@ pub mod ports;
 pub mod timer;
 pub mod irq;
 pub mod runloop;
+pub mod sock;
 
 use crate::hv::e1::Case;
 use crate::hv::known::Known;
@@ -34,6 +35,7 @@ pub fn build(id: &str, tier: Tier, seed: u64, known: &[Known]) -> Option<Prop> {
         "C13" => runloop::c13(tier, seed),
         "C16" => ports::c16(tier, seed),
         "C17" => timer::c17(tier, seed),
+        "C18" => sock::c18(tier, seed),
         "C19" => tables::c19(tier, seed),
         "C20" => charge::c20(tier, seed),
         _ => return None,
@@ -72,6 +74,7 @@ pub fn replay_other(prop: &str, doc: &serde_json::Value, path: &std::path::PathB
         Some("c17") => timer::replay_c17(&v["case"]),
         Some("c10") => irq::replay_c10(&v["case"]),
         Some("c13") => runloop::replay_c13(&v["case"]),
+        Some("c18") => sock::replay_c18(&v["case"]),
         other => {
             println!("no replay handler for engine {:?} (property {})", other, prop);
             return 2;
